@@ -352,6 +352,24 @@ class Normalizer(ast.NodeTransformer):
                 return ast.copy_location(ast.Constant(value=same if isinstance(node.ops[0], ast.Is) else not same), node)
         return node
 
+    # ------------------------------------------------------------------ N14: return {'k': v, ..}  ->  built step by step
+    def visit_Return(self, node):
+        self.generic_visit(node)
+        v = node.value
+        if isinstance(v, ast.Dict) and v.keys and all(isinstance(k, ast.Constant) for k in v.keys):
+            self.count += 1
+            nm = f'__ret__u{self.count}'
+            out = [ast.Assign(targets=[ast.Name(id=nm, ctx=ast.Store())], value=ast.Dict(keys=[], values=[]), type_comment=None)]
+            for k, val in zip(v.keys, v.values):
+                out.append(ast.Assign(targets=[ast.Subscript(value=ast.Name(id=nm, ctx=ast.Load()), slice=k, ctx=ast.Store())],
+                                      value=val, type_comment=None))
+            out.append(ast.Return(value=ast.Name(id=nm, ctx=ast.Load())))
+            for o in out:
+                ast.copy_location(o, node)
+                ast.fix_missing_locations(o)
+            return out
+        return node
+
     def visit_BoolOp(self, node):
         self.generic_visit(node)
         # `True and X` -> X ; `False and X` -> False ; `False or X` -> X ; `True or X` -> True  (leading constants only:
